@@ -64,6 +64,18 @@ func MirrorPrep(root *Node, env Env) bool {
 // exchanged, start and end anchors exchanged.
 func Mirror(root *Node) *Node {
 	c := root.Clone()
+	// the condition of a bare conditional (?(expr)yes|no) runs in the direction of its context, so
+	// it mirrors by itself: its look node is left alone
+	bareCond := map[*Node]bool{}
+	c.Walk(func(n *Node) {
+		if n.K == KCondExpr {
+			if n.Bare && n.Kids[0].Ahead && !n.Kids[0].Neg {
+				bareCond[n.Kids[0]] = true
+			} else {
+				n.Bare = false // written with an explicit look-around: stays explicit in the mirror image
+			}
+		}
+	})
 	c.Walk(func(n *Node) {
 		switch n.K {
 		case KConcat:
@@ -71,6 +83,9 @@ func Mirror(root *Node) *Node {
 				n.Kids[i], n.Kids[j] = n.Kids[j], n.Kids[i]
 			}
 		case KLook:
+			if bareCond[n] {
+				break
+			}
 			n.Ahead = !n.Ahead
 		case KAnchor:
 			switch n.Anchor {
